@@ -352,13 +352,14 @@ func cmpParts(lit *ast.FuncLit) (string, token.Token, string, bool) {
 func init() {
 	register(&Property{
 		ID:    "C15",
-		Rules: []string{"C15-R2", "C15-R4", "C15-R5", "C15-R6", "C15-R7"},
-		Explain: "Decides that presentation switches are wired so that they cannot change numbers: C15-R2 every colouring function, over colour on/off x sign(value), renders positive red, negative green, zero and colour-off plain, and stripped of escape sequences every rendering equals the plain one (same verb, same width); " +
+		Rules: []string{"C15-R1", "C15-R2", "C15-R3", "C15-R4", "C15-R5", "C15-R6", "C15-R7"},
+		Explain: "Decides that presentation switches are wired so that they cannot change numbers: C15-R1 the templates selectable through the same option show the same set of fields; C15-R3 every shorten width equals the width of the column the name is printed in; C15-R2 every colouring function, over colour on/off x sign(value), renders positive red, negative green, zero and colour-off plain, and stripped of escape sequences every rendering equals the plain one (same verb, same width); " +
 			"C15-R4 at the register's expansion sites what goes into the day's accumulator does not depend on totals-only (the switches gate lines only); C15-R5 each descending comparator is the ascending one mirrored; " +
 			"C15-R6 presentation flags declared on several levels (no-color) are read through the context lineage so either position works; " +
 			"C15-R7 in every collapse mode a balance row shows the visited child's own Total and a subtree is skipped only where the mode joins it into the row.",
-		NotDecided: "that two renderings contain the same digits, the interleaving claim, truncation arithmetic inside the truncate library, agreement of the register templates (C15-R1/R3 not built)",
+		NotDecided: "that two renderings contain the same digits, the interleaving claim, truncation arithmetic inside the truncate library",
 		Run: func(c *core.Ctx) {
+			ruleTemplates(c, "", "C15-R1", "C15-R3")
 			ruleColourBySign(c, "C15-R2")
 			ruleTotalsGates(c, "C15-R4")
 			ruleDescMirrors(c, "C15-R5")
